@@ -12,7 +12,13 @@ dominates_grid  exhaustive: all pairs on {0,1,2}^2 x violation scores {-1,0,0.5,
 dominates       generated triples: value, irreflexive, asymmetric, transitive
 dist            the three distance transformations against the geometric definition, translation / permutation
                 invariance, finiteness with constant objectives and one-point fronts
+
+``numpy.empty`` / ``numpy.empty_like`` are replaced, while pybrops code runs, by an allocator that fills the new array
+with NaN (floats, complex), a sentinel (integers) or True (booleans).  The contents of such an array are unspecified,
+so this is one admissible behaviour of numpy; it makes "an element was read before it was written" a deterministic,
+replayable function of the case instead of something that depends on what the heap happened to contain.
 """
+import contextlib
 import itertools
 import math
 
@@ -38,15 +44,63 @@ ASSUMPTIONS = [
     "filter: rescaling factors are powers of two for float point sets (exact) and arbitrary positive factors for small "
     "integer grids (strictly monotone there), so the dominance relation is mathematically unchanged",
     "dist: objective sign vectors are +-1 (other values are documented as undefined), preference vectors are "
-    "non-negative, non-zero, entries 0 or in [1e-3, 1e3]; coordinates are 0 or 1e-6 <= |x| <= 1e6",
+    "non-negative, non-zero, entries 0 or in [1e-3, 1e3]; float coordinates are 0 or 1e-6 <= |x| <= 1e6, integer "
+    "coordinates (|x| <= 1000) are multiplied by a unit 2**k, -40 <= k <= 40, common to the front or chosen per "
+    "objective (exact in binary64; the min-max scaling of the definition removes it exactly)",
     "dist: tolerance |d - d_ref| <= 128*eps*nobj*sqrt(nobj) (forward error of scale/dot/project/norm on data in "
     "[0,1]; derived in pbt/checks/c19.py), d_ref from exact rational arithmetic with one final sqrt",
     "dist: the translation clause is only asserted where the translation is exact in binary64 (integer grids times "
     "a power-of-two unit)",
     "dominates: minimisation, feasible iff cv <= 0 as documented; -0.0 counts as 0",
+    "numpy.empty / numpy.empty_like are replaced by a NaN / sentinel / True-filling allocator while pybrops code runs "
+    "(every call of the filter, dominates() and the three distance transformations); their contents are unspecified, "
+    "so a result that is only right for some contents of never-written elements is not the function of the inputs "
+    "the property describes",
 ]
 
 EPS = 2.0 ** -52
+
+
+# ====================================================================================== poisoned allocator
+_real_empty = numpy.empty
+_real_empty_like = numpy.empty_like
+INT_SENTINEL = -(2 ** 62) + 12345
+
+
+def _poison(out):
+    kind = out.dtype.kind
+    if kind in "fc":
+        out.fill(numpy.nan)
+    elif kind in "iu":
+        out.fill(INT_SENTINEL if (kind == "i" and out.dtype.itemsize >= 8) else numpy.iinfo(out.dtype).max)
+    elif kind == "b":
+        out.fill(True)
+    return out
+
+
+def _poison_empty(*a, **k):
+    return _poison(_real_empty(*a, **k))
+
+
+def _poison_empty_like(*a, **k):
+    return _poison(_real_empty_like(*a, **k))
+
+
+@contextlib.contextmanager
+def poisoned():
+    """Run pybrops code with never-written array elements made visible (NaN / sentinel / True)."""
+    numpy.empty, numpy.empty_like = _poison_empty, _poison_empty_like
+    try:
+        yield
+    finally:
+        numpy.empty, numpy.empty_like = _real_empty, _real_empty_like
+
+
+def call(fn, *a, **k):
+    with poisoned():
+        return fn(*a, **k)
+
+
 SIGN_PATTERNS = [(1.0, 1.0), (1.0, -1.0), (-1.0, 1.0), (-1.0, -1.0)]
 
 
@@ -58,8 +112,8 @@ def run_filter(points, wt, ctx, tag):
     P = numpy.array(points, dtype="float64").reshape(npt, nobj)
     W = numpy.array(wt, dtype="float64")
     P0, W0 = P.copy(), W.copy()
-    mask = is_pareto_efficient(P, W, return_mask=True)
-    idx = is_pareto_efficient(P, W, return_mask=False)
+    mask = call(is_pareto_efficient, P, W, return_mask=True)
+    idx = call(is_pareto_efficient, P, W, return_mask=False)
     ctx.check(isinstance(mask, numpy.ndarray) and mask.dtype == bool and mask.shape == (npt,), tag + "mask.form",
               lambda: "mask %r" % (mask,))
     ctx.check(isinstance(idx, numpy.ndarray) and idx.ndim == 1 and idx.dtype.kind in "iu", tag + "index.form",
@@ -110,8 +164,8 @@ def check_filter_grid(case, ctx):
         tag = "grid."
         if n == 0:
             P = numpy.zeros((0, 2))
-            m = is_pareto_efficient(P, numpy.array(wt), True)
-            i = is_pareto_efficient(P, numpy.array(wt), False)
+            m = call(is_pareto_efficient, P, numpy.array(wt), True)
+            i = call(is_pareto_efficient, P, numpy.array(wt), False)
             ctx.check(m.shape == (0,) and i.shape == (0,), tag + "empty_set", "mask %r index %r" % (m, i))
             continue
         marked = run_filter(points, list(wt), ctx, tag)
@@ -245,8 +299,7 @@ def dominates_grid_cases(tier):
 
 
 def _dom(o1, c1, o2, c2):
-    r = pb_dominates(numpy.array(o1, dtype="float64"), c1, numpy.array(o2, dtype="float64"), c2)
-    return r
+    return call(pb_dominates, numpy.array(o1, dtype="float64"), c1, numpy.array(o2, dtype="float64"), c2)
 
 
 def check_dominates_grid(case, ctx):
@@ -332,8 +385,14 @@ DIST_FUNCS = [
 @st.composite
 def dist_case(draw):
     nobj = draw(st.sampled_from([1, 2, 2, 2, 3, 3, 4]))
-    shape = draw(st.sampled_from(["generic", "generic", "front", "front", "const_col", "one_point"]))
-    npt = 1 if shape == "one_point" else (draw(st.integers(4, 14)) if shape == "front" else draw(st.integers(2, 10)))
+    shape = draw(st.sampled_from(["generic", "generic", "front", "front", "const_col", "const_col", "front_const",
+                                  "one_point"]))
+    if shape == "one_point":
+        npt = 1
+    elif shape in ("front", "front_const"):
+        npt = draw(st.integers(4, 14))
+    else:
+        npt = draw(st.integers(2, 10))
     kind = draw(st.sampled_from(["grid", "int", "float"]))
     if kind == "grid":
         el = st.integers(0, 4)
@@ -343,7 +402,7 @@ def dist_case(draw):
         el = _coord_float
     pts = [[draw(el) for _ in range(nobj)] for _ in range(npt)]
     const_cols = []
-    if shape == "const_col":
+    if shape in ("const_col", "front_const"):
         const_cols = draw(st.lists(st.integers(0, nobj - 1), min_size=1, max_size=nobj, unique=True))
     signs = [draw(st.sampled_from([1.0, 1.0, -1.0])) for _ in range(nobj)]
     vkind = draw(st.sampled_from(["ones", "equal", "table", "table", "float"]))
@@ -358,7 +417,13 @@ def dist_case(draw):
     force = draw(st.integers(0, nobj - 1))
     if not any(v > 0 for v in vec):
         vec[force] = 1.0
-    unit_exp = draw(st.integers(-10, 10))
+    # unit of measurement of the objectives: one power of two for the whole front or one per objective
+    _uexp = st.one_of(st.integers(-10, 10), st.integers(-10, 10), st.integers(-40, 40), st.integers(-40, -28),
+                      st.integers(28, 40))
+    if draw(st.sampled_from(["same", "same", "per_objective"])) == "same":
+        unit_exp = draw(_uexp)
+    else:
+        unit_exp = [draw(_uexp) for _ in range(nobj)]
     shift = [draw(st.integers(-1000, 1000)) for _ in range(nobj)]
     perm = draw(st.permutations(list(range(npt))))
     return {"nobj": nobj, "shape": shape, "kind": kind, "pts": pts, "const_cols": const_cols, "signs": signs,
@@ -374,11 +439,13 @@ def check_dist(case, ctx):
     signs = [float(s) for s in case["signs"]]
     vec = [float(v) for v in case["vec"]]
     exact_grid = case["kind"] in ("grid", "int")
-    unit = 2.0 ** case["unit_exp"] if exact_grid else 1.0
-    if case["shape"] == "front":
+    ue = case["unit_exp"]
+    ue = [int(e) for e in ue] if isinstance(ue, list) else [int(ue)] * nobj
+    units = [2.0 ** e if exact_grid else 1.0 for e in ue]
+    if case["shape"] in ("front", "front_const"):     # front_const: a true front on which some objective does not vary
         keep = R.efficient_mask(pts, signs)
         pts = [p for p, k in zip(pts, keep) if k]
-    pts = [[x * unit for x in p] for p in pts]           # exact: integers times a power of two
+    pts = [[x * u for x, u in zip(p, units)] for p in pts]           # exact: integers times a power of two
     npt = len(pts)
     perm = [i for i in case["perm"] if i < npt]
     const_col = any(len(set(p[j] for p in pts)) == 1 for j in range(nobj))
@@ -393,7 +460,12 @@ def check_dist(case, ctx):
     ctx.label("has_minimised_objective", any(s < 0 for s in signs))
     ctx.label("preference_has_zero_entry", vec_zero)
     ctx.label("preference_not_diagonal", len(set(vec)) > 1)
-    ctx.label("true_front_with_3+_points", case["shape"] == "front" and npt >= 3)
+    ctx.label("true_front_with_3+_points", case["shape"] in ("front", "front_const") and npt >= 3)
+    ranges = [max(p[j] for p in pts) - min(p[j] for p in pts) for j in range(nobj)]
+    ctx.label("varying_objective_with_range_below_1e-8", any(0.0 < r <= 1e-8 for r in ranges))
+    ctx.label("varying_objective_with_range_above_1e8", any(r >= 1e8 for r in ranges))
+    ctx.label("objectives_in_different_units", exact_grid and len(set(ue)) > 1)
+    ctx.label("true_front_with_constant_objective", case["shape"] == "front_const" and npt >= 2)
     ctx.nontrivial(npt >= 2 and nobj >= 2 and not all(len(set(p[j] for p in pts)) == 1 for j in range(nobj)))
 
     ref = R.vec_dist(pts, signs, vec)
@@ -401,12 +473,12 @@ def check_dist(case, ctx):
     M = numpy.array(pts, dtype="float64").reshape(npt, nobj)
     S = numpy.array(signs, dtype="float64")
     V = numpy.array(vec, dtype="float64")
-    shifted = [[(x / unit + t) * unit for x, t in zip(p, case["shift"])] for p in pts] if exact_grid else None
+    shifted = [[(x / u + t) * u for x, t, u in zip(p, case["shift"], units)] for p in pts] if exact_grid else None
 
     for name, fn, is_sel_variant in DIST_FUNCS:
         tag = "dist.%s." % name
         M1, S1, V1 = M.copy(), S.copy(), V.copy()
-        out = fn(M1, S1, V1)
+        out = call(fn, M1, S1, V1)
         ctx.check(isinstance(out, numpy.ndarray) and out.shape == (npt,), tag + "shape", lambda: repr(out))
         ctx.check(numpy.array_equal(M1, M) and numpy.array_equal(S1, S) and numpy.array_equal(V1, V),
                   tag + "inputs_mutated")
@@ -417,6 +489,8 @@ def check_dist(case, ctx):
         if is_sel_variant and ctx.known("F-C19-a", a_sig):
             continue        # NaN expected for this input; nothing further can be said about the values
         # ---------------------------------------------------------------------------------------------------
+        # asserted whatever F-C19-b says about the roles of the two weight arguments
+        ctx.label("finiteness_asserted_with_constant_objective_for_" + name, const_col and npt > 1)
         if not ctx.check(all(math.isfinite(x) for x in got), tag + "finite",
                          lambda: "%s(mat=%s, signs=%s, vec=%s) = %s" % (name, pts, signs, vec, got)):
             continue        # (already reported in this run) the value clauses below are moot for NaN output
@@ -429,13 +503,14 @@ def check_dist(case, ctx):
                       % (name, pts, signs, vec, got, ref, tol))
         # translation of the whole front (exact in binary64 for grid kinds)
         if shifted is not None:
-            o2 = [float(x) for x in fn(numpy.array(shifted, dtype="float64").reshape(npt, nobj), S.copy(), V.copy())]
+            M2 = numpy.array(shifted, dtype="float64").reshape(npt, nobj)
+            o2 = [float(x) for x in call(fn, M2, S.copy(), V.copy())]
             ctx.check(all(abs(x - y) <= tol for x, y in zip(got, o2)), tag + "translation_invariance",
                       lambda: "%s: %s -> %s after translating by %s*%s (mat=%s signs=%s vec=%s)"
-                      % (name, got, o2, case["shift"], unit, pts, signs, vec))
+                      % (name, got, o2, case["shift"], units, pts, signs, vec))
         # order of points
         if npt > 1:
-            o3 = [float(x) for x in fn(M[perm].copy(), S.copy(), V.copy())]
+            o3 = [float(x) for x in call(fn, M[perm].copy(), S.copy(), V.copy())]
             ctx.check(all(abs(o3[k] - got[perm[k]]) <= tol for k in range(npt)), tag + "permutation_equivariance",
                       lambda: "%s: %s vs %s under %s" % (name, got, o3, perm))
 
@@ -469,10 +544,16 @@ SUBCHECKS = [
                   "non-trivial = at least one dominance among the three",
              required_labels=("chain_of_three", "feasible=3/3", "feasible=0/3")),
     SubCheck("dist", check_dist, dist_case(), quick=2500, thorough=6000, shards_quick=4,
-             rule="generated fronts (generic sets, true non-dominated fronts, forced constant objectives, one point) "
-                  "x sign vector x preference vector, three implementations; non-trivial = >=2 points, >=2 "
-                  "objectives, not all objectives constant",
-             required_labels=("one_point", "constant_objective", "has_minimised_objective",
+             rule="generated fronts (generic sets, true non-dominated fronts, forced constant objectives on generic "
+                  "sets and on true fronts, one point; units 2**-40..2**40, common or per objective) x sign vector x "
+                  "preference vector, three implementations, "
+                  "numpy.empty poisoned; non-trivial = >=2 points, >=2 objectives, not all objectives constant",
+             required_labels=("one_point", "constant_objective", "true_front_with_constant_objective",
+                              "finiteness_asserted_with_constant_objective_for_core",
+                              "finiteness_asserted_with_constant_objective_for_prob",
+                              "finiteness_asserted_with_constant_objective_for_transfn", "has_minimised_objective",
+                              "varying_objective_with_range_below_1e-8", "varying_objective_with_range_above_1e8",
+                              "objectives_in_different_units",
                               "preference_has_zero_entry", "true_front_with_3+_points", "definition_asserted_for_core",
                               "definition_asserted_for_prob", "definition_asserted_for_transfn")),
 ]
